@@ -828,7 +828,7 @@ def run(ctx):
         "coq_cases": len(terms), "cpython_cases": len(allpy), "go_oracle_cases": stats["total"],
         "coq_format_cases": sum(1 for t in terms if t.startswith("(CFormat ")),
         "coq_interpolate_cases": sum(1 for t in terms if t.startswith("(CInterp ")),
-        "rule": "exhaustive (lo, hi, step) in ([-n-3, n+3] U None)^3 for every receiver of length <= %d over {a,b,c} and sampled receivers up to length 8, for string, bytes, list, tuple and five range shapes; every index in the pool; method argument tuples over needles/separators of length 0-3, all (start, end) pairs of the pool, omitted optionals, None, wrong types, counts -7..n+1; huge counts/indices (2^31-1, 2^31, 2^32, +-2^62, 2^63-1, 2^63, 2^100) in a child process; sorted/min/max on every list of length 0-4 over pools with duplicates and on random lists to length 8, keys len / x%%3 / constant / first / lower / int / -x and none, mixed 1 / 1.0 / True, reverse omitted / True / False; every iterable-taking built-in / method (zip, enumerate, reversed, sorted, min, max, any, all, list, tuple, list.extend, str.join) on sequences with a known length (list, tuple, range, str.elems(), str.elem_ords()) and on length-less iterables (str.codepoints(), str.codepoint_ords(), bytes.elems()) in every argument position with lengths 0-4 shorter / equal / longer than the other arguments; every returned value is validated deeply (a nil element is a finding by itself); str.format and %% interpolation on every sequence of template segments (fields {} {0} {a} with !r / !s / specs / bad conversions, brace escapes; numeric field names around 2^63, 2^64, 10 * 2^64, 2^128 and small numbers written with 19-30 digits, also supplied as keyword names; %%s %%r %%d %%x %%X %%o %%i %%c %%%% %%(key)) with positional, keyword, missing and surplus arguments; seeded random receivers to length 40. Every executed case is compared with the Go copy of the specification; a sample of the format / %% cases (every 8th / 16th in the quick tier, every 40th / 60th in the thorough tier, plus every case on which the Go copy disagrees) is evaluated in Coq against Format.v / FormatSpec.v and Interp.v / InterpSpec.v; `distinct_nontrivial` counts the distinct cases evaluated in Coq against C13 model and Spec.v whose result is a value or an index/method error" % (2 if ctx.quick() else 5),
+        "rule": "exhaustive (lo, hi, step) in ([-n-3, n+3] U None)^3 for every receiver of length <= %d over {a,b,c} and sampled receivers up to length 8, for string, bytes, list, tuple and five range shapes; every index in the pool; method argument tuples over needles/separators of length 0-3, all (start, end) pairs of the pool, omitted optionals, None, wrong types, counts -7..n+1; huge counts/indices (2^31-1, 2^31, 2^32, +-2^62, 2^63-1, 2^63, 2^100) in a child process; sorted/min/max on every list of length 0-4 over pools with duplicates and on random lists to length 8, keys len / x%%3 / constant / first / lower / int / -x and none, mixed 1 / 1.0 / True, reverse omitted / True / False; every iterable-taking built-in / method (zip, enumerate, reversed, sorted, min, max, any, all, list, tuple, list.extend, str.join) on sequences with a known length (list, tuple, range, str.elems(), str.elem_ords()) and on length-less iterables (str.codepoints(), str.codepoint_ords(), bytes.elems()) in every argument position with lengths 0-4 shorter / equal / longer than the other arguments; every returned value is validated deeply (a nil element is a finding by itself); results are new values: x*n, n*x, x+y, x+x, x[lo:hi:step], list(x), sorted(x), reversed(x) on lists of length 0-3 followed by an in-place mutation (element assignment, append, pop+append, clear, insert) of the result or of an operand, all lists observed afterwards (class alias); str.format and %% interpolation on every sequence of template segments (fields {} {0} {a} with !r / !s / specs / bad conversions, brace escapes; numeric field names around 2^63, 2^64, 10 * 2^64, 2^128 and small numbers written with 19-30 digits, also supplied as keyword names; %%s %%r %%d %%x %%X %%o %%i %%c %%%% %%(key)) with positional, keyword, missing and surplus arguments; seeded random receivers to length 40. Every executed case is compared with the Go copy of the specification; a sample of the format / %% cases (every 8th / 16th in the quick tier, every 40th / 60th in the thorough tier, plus every case on which the Go copy disagrees) is evaluated in Coq against Format.v / FormatSpec.v and Interp.v / InterpSpec.v; `distinct_nontrivial` counts the distinct cases evaluated in Coq against C13 model and Spec.v whose result is a value or an index/method error" % (2 if ctx.quick() else 5),
         "samples": samples, "distribution": dist,
         "model_mismatches": len(bad_model), "spec_mismatches": len(bad_spec), "go_oracle_mismatches": stats["gomis"],
         "cpython_differences": len(py_diff), "cpython_documented_differences": documented,
